@@ -170,7 +170,10 @@ def track_diagrams():
     orig = SuccessionDiagram.__init__
 
     def __init__(self, *a, **k):
-        del _LIVE_SDS[:-7]
+        if len(_LIVE_SDS) >= 8:
+            # source-SCC / block expansion constructs many small sub-diagrams: keep the largest diagram and the newest
+            big = max(_LIVE_SDS, key=lambda s: s.dag.number_of_nodes() if hasattr(s, "dag") else 0)
+            _LIVE_SDS[:] = [big] + [s for s in _LIVE_SDS[-6:] if s is not big]
         _LIVE_SDS.append(self)
         return orig(self, *a, **k)
 
@@ -184,6 +187,33 @@ def live_nodes() -> int:
         if hasattr(s, "dag"):
             m = max(m, s.dag.number_of_nodes())
     return m
+
+
+def _edge_mult(s, u, v) -> int:
+    try:
+        return max(1, len(s.edge_all_stable_motifs(u, v, reduced=True)))
+    except Exception:
+        return 1
+
+
+def live_paths(cap: int = 10**6, extra=None) -> int:
+    """Number of successions (root->node paths, each edge counted once per stable motif it carries) summed over all
+    nodes of the largest live diagram (capped): succession control enumerates exactly these (`all_simple_paths` x
+    `product(edge_all_stable_motifs)`), so its work is proportional to this output-size quantity."""
+    import networkx as nx
+
+    best = 1
+    for s in list(_LIVE_SDS) + ([extra] if extra is not None else []):
+        if not hasattr(s, "dag"):
+            continue
+        try:
+            cnt = {}
+            for v in nx.topological_sort(s.dag):
+                cnt[v] = max(1, sum(cnt[u] * _edge_mult(s, u, v) for u in s.dag.predecessors(v)))
+            best = max(best, min(cap, sum(cnt.values())))
+        except Exception:
+            best = cap
+    return best
 
 
 def budget_for(ref_or_n, nodes: int = 1) -> int:
